@@ -3,6 +3,7 @@
    Models: Geometry.v / Mesh.v at R. *)
 From Coq Require Import NArith ZArith Bool List Lia Reals Lra Permutation.
 From SC Require Import Num Vec3 VecR Rot Mesh Geometry GeometrySpec GeometryProofs.
+From SC Require SourceTies.
 Import ListNotations.
 Local Open Scope R_scope.
 
@@ -122,3 +123,16 @@ Theorem repair_only_changes_windings : forall (nodes : list vR) (faces faces' : 
   repair_orientation NumR nodes faces = Some faces' -> Forall2 same_triangle faces faces'.
 Proof. exact repair_same_triangles. Qed.
 Print Assumptions repair_only_changes_windings.
+
+(* THE TIE TO THE SOURCE.  Vec3_gen.v and Geometry_gen.v are regenerated from src/math_modules/vec3.{cpp,hpp} and
+   src/mesh/cell.cpp on every run; SourceTies.v proves them equal to Vec3.v / Geometry.v by reflexivity, for every number type:
+   the face normal and area, the per-face volume term and its finalisation (/6, abs), the area sum, the area-weighted centroid,
+   the bounding-box update of one node and the signed volume of the orientation test are what the code computes now.
+   (Statements: SourceTies.vec3_tie, SourceTies.geometry_tie.) *)
+Theorem vector_algebra_is_what_the_source_says : SourceTies.vec3_tie.
+Proof. exact SourceTies.vec3_model_is_what_the_source_says. Qed.
+Print Assumptions vector_algebra_is_what_the_source_says.
+
+Theorem geometry_model_is_what_the_source_says : SourceTies.geometry_tie.
+Proof. exact SourceTies.geometry_model_is_what_the_source_says. Qed.
+Print Assumptions geometry_model_is_what_the_source_says.
